@@ -91,6 +91,17 @@ static int readit(const char* path){
 int main(int argc, char** argv){
 	if(argc>=3 && !strcmp(argv[1],"cfitsio")) return probe(argv[2]);
 	if(argc>=3 && !strcmp(argv[1],"read")) return readit(argv[2]);
+	if(argc>=3 && !strcmp(argv[1],"dump")){   // every number of the table as the real library reads it (%.17g is exact for doubles, %.9g for floats)
+		try{ photospline::splinetable<> t(argv[2]); uint32_t nd=t.get_ndim();
+			printf("{\"ndim\": %u, \"order\": [", nd); for(uint32_t d=0;d<nd;d++) printf("%s%u", d?", ":"", t.get_order(d));
+			printf("], \"knots\": ["); for(uint32_t d=0;d<nd;d++){ printf("%s[", d?", ":""); for(uint64_t k=0;k<t.get_nknots(d);k++) printf("%s\"%.17g\"", k?", ":"", t.get_knot(d,k)); printf("]"); }
+			printf("], \"naxes\": ["); for(uint32_t d=0;d<nd;d++) printf("%s%llu", d?", ":"", (unsigned long long)t.get_ncoeffs(d));
+			printf("], \"strides\": ["); for(uint32_t d=0;d<nd;d++) printf("%s%llu", d?", ":"", (unsigned long long)t.get_stride(d));
+			printf("], \"extents\": ["); for(uint32_t d=0;d<nd;d++) printf("%s[\"%.17g\", \"%.17g\"]", d?", ":"", t.lower_extent(d), t.upper_extent(d));
+			printf("], \"coefficients\": ["); for(uint64_t k=0;k<t.get_ncoeffs();k++) printf("%s\"%.9g\"", k?", ":"", (double)t.get_coefficients()[k]);
+			printf("]}\n"); }
+		catch(std::exception& ex){ printf("{\"failed\": true, \"what\": "); jstr(ex.what()); printf("}\n"); }
+		return 0; }
 	if(argc>=4 && !strcmp(argv[1],"rewritemem")){   // read with the library, write through the memory back end, read that back from memory, dump the buffer
 		try{ photospline::splinetable<> t(argv[2]); auto buf=t.write_fits_mem(); photospline::splinetable<> u; u.read_fits_mem(buf.first,buf.second);
 			FILE* f=fopen(argv[3],"wb"); fwrite(buf.first,1,buf.second,f); fclose(f); free(buf.first);
